@@ -51,6 +51,9 @@ def run(idx, rep, tier):
     from . import c11
     n, msg = c11.run_sequences(idx, 3)
     rep.check(msg is None, "R6", "csvpath/managers/files/file_manager.py::named-file resolution is history independent", msg or f"{n} operation sequences", "csvpath/managers/files/file_manager.py")
+    # repeating a run gives identical results: run-scoped state (run time, run directory, signals) is reset before a run is named
+    from . import c10
+    c10.run_state(idx, K.as_rule(rep, "R1"), "R1")
     rep.stats["exhaustive"] = True
 
 
